@@ -12,8 +12,9 @@ CONSTANTS
  Chunks = {1}
  LyingSizes = FALSE
  InlineData = FALSE
+ Conc = 64
 INIT Init
 NEXT Next
 VIEW View
-INVARIANTS TypeOK PCleanOk HashIsGot CountIsGot Bounded EofVerified EofSized
+INVARIANTS TypeOK PCleanOk HashIsGot CountIsGot Bounded EofVerified EofSized NeverSelfBlocked NoLeftover
 CHECK_DEADLOCK FALSE
